@@ -19,7 +19,7 @@ var fnNames = []string{
 	"<", "<=", "=", "!=", ">=", ">", "is null", "is not null", // 0..7
 	"+", "-", "*", "/", // 8..11
 	"abs", "sqrt", "ceil", "floor", "log2", "log", "log10", "pow", // 12..19
-	"not",            // 20
+	"not",             // 20
 	"like", "~", "~*", // 21..23
 	"upper", "lower", "reverse", "substr", "replace", "position", "len", // 24..30
 	"now", "parse_time", "time_from_unix", "time_to_unix", // 31..34
